@@ -533,3 +533,67 @@ Proof.
   intros HE. apply float_partial_thm. intros F m e HF Hm Hb Hr. rewrite HE.
   apply model_meets_contract; assumption.
 Qed.
+
+(* ------------------------------------------------------------------------------------------------ *)
+(* Python ints (and bools) assigned to float variables                                              *)
+
+Lemma bitlen_le a k : 0 < a -> 0 <= k -> a < 2 ^ k -> bitlen a <= k.
+Proof.
+  intros Ha Hk Hb. destruct (bitlen_spec a Ha) as (B1 & B2 & B3).
+  destruct (Z.le_gt_cases (bitlen a) k) as [|C]; [assumption|].
+  assert (2 ^ k <= 2 ^ (bitlen a - 1)) by (apply Z.pow_le_mono_r; lia). lia.
+Qed.
+
+Lemma round53_small a : 0 < a -> a < 2 ^ 53 -> round53 a = Some (a, 0).
+Proof.
+  intros Ha Hb. pose proof (bitlen_le a 53 Ha ltac:(lia) Hb) as HL. unfold round53.
+  destruct (bitlen a <=? 53) eqn:E; [reflexivity | lia].
+Qed.
+
+Lemma from_value_int F n : n <> 0 -> Z.abs n < 2 ^ 53 ->
+  mbf_from_value F (PInt n) = Ok (mbf_from_mag F (n <? 0) (Z.abs n) 0).
+Proof.
+  intros Hn Hb. unfold mbf_from_value. destruct (n =? 0) eqn:E0; [lia|].
+  rewrite round53_small by lia. reflexivity.
+Qed.
+
+Lemma to_value_zero_sng : mbf_to_value Fsng (f_zero Fsng) = PFloat 0 0. Proof. reflexivity. Qed.
+Lemma to_value_zero_dbl : mbf_to_value Fdbl (f_zero Fdbl) = PFloat 0 0. Proof. reflexivity. Qed.
+
+(* what a float variable returns after set_variable(name, <int>) *)
+Theorem int_float_set_get E st name sg n : e_fv E = mbf_from_value ->
+  scalar_name name sg -> sg_fmt_name sg -> n <> 0 -> Z.abs n < 2 ^ 53 ->
+  let b := mbf_from_mag (fmt_of sg) (n <? 0) (Z.abs n) 0 in
+  let st' := fst (set_variable E st name (PInt n)) in
+  snd (set_variable E st name (PInt n)) = Ok tt /\
+  get_variable E st' name 0 = Ok (mbf_to_value (fmt_of sg) b) /\
+  evaluate st' name [] = (st', Ok (mbf_to_value (fmt_of sg) b)).
+Proof.
+  intros HE Hn Hs Hz Hb.
+  assert (Hv : from_value E sg (PInt n) = Ok (SNum (mbf_from_mag (fmt_of sg) (n <? 0) (Z.abs n) 0))).
+  { rewrite from_value_float, HE, from_value_int by assumption. reflexivity. }
+  pose proof (scalar_roundtrip E st name sg (PInt n) (PInt n) _ Hn eq_refl Hv) as H.
+  cbv zeta in H |- *. rewrite to_value_float in H by exact Hs. exact H.
+Qed.
+
+Theorem int_float_zero E st name sg : e_fv E = mbf_from_value -> scalar_name name sg -> sg_fmt_name sg ->
+  let st' := fst (set_variable E st name (PInt 0)) in
+  snd (set_variable E st name (PInt 0)) = Ok tt /\
+  get_variable E st' name 0 = Ok (PFloat 0 0) /\ evaluate st' name [] = (st', Ok (PFloat 0 0)).
+Proof.
+  intros HE Hn Hs.
+  assert (Hv : from_value E sg (PInt 0) = Ok (SNum (f_zero (fmt_of sg)))).
+  { rewrite from_value_float, HE by assumption. reflexivity. }
+  pose proof (scalar_roundtrip E st name sg (PInt 0) (PInt 0) _ Hn eq_refl Hv) as H.
+  cbv zeta in H |- *. rewrite to_value_float in H by exact Hs.
+  destruct Hs as [->| ->]; [change (fmt_of sg_sng) with Fsng in H; rewrite to_value_zero_sng in H
+                           | change (fmt_of sg_dbl) with Fdbl in H; rewrite to_value_zero_dbl in H]; exact H.
+Qed.
+
+(* every int of at most 53 bits is in the exponent range of both formats *)
+Lemma int_in_range_single n : n <> 0 -> Z.abs n < 2 ^ 53 -> in_range Fsng n 0.
+Proof.
+  intros Hn Hb. assert (Ha : 0 < Z.abs n) by lia.
+  pose proof (bitlen_le _ 53 Ha ltac:(lia) Hb). destruct (bitlen_spec _ Ha) as (B1 & _).
+  unfold in_range. cbv zeta. destruct (2 ^ f_nbits Fsng - 1 <? mbf_round_man Fsng (Z.abs n)); lia.
+Qed.
